@@ -102,6 +102,10 @@ def first_order_match(pat, t, inst=None):
                 # bound variables
                 if bd_vars and t.has_vars(bd_vars):
                     raise MatchException(trace)
+                try:
+                    pat.T.match_incr(t.get_type(), inst.tyinst)
+                except TypeMatchException:
+                    raise MatchException(trace)
                 inst[pat.head.name] = t
             else:
                 if inst[pat.head.name] != t:
@@ -134,11 +138,7 @@ def first_order_match(pat, t, inst=None):
                 if heuristic_match:
                     # Heuristic matching: just assign pat.fun to t.fun.
                     if t.is_comb():
-                        try:
-                            pat.head.T.match_incr(t.fun.get_type(), inst.tyinst)
-                        except TypeMatchException:
-                            raise MatchException(trace)
-                        inst[pat.head.name] = t.fun
+                        match(pat.fun, t.fun)
                         match(pat.arg, t.arg)
                     else:
                         raise MatchException(trace)
